@@ -5,7 +5,8 @@ of places where the file departs from the specification.  This is the oracle of 
 
 Reading of the rst used here
   * attributes: id (string), type (string; controlled vocabulary, the empty string is accepted
-    for "no type" since the attribute is required but a table need not have a type),
+    for "no type" since the attribute is required but a table need not have a type; a value outside the
+    vocabulary is reported under 'notes', not under 'problems'),
     format-url (string), format-version (two ints, (2, 1)), generated-by (string),
     creation-date (string, ISO 8601), shape (two ints), nnz (int)
   * the eight groups, the eight datasets with their element types
@@ -100,7 +101,7 @@ def _matrix(f, axis, n_major, n_minor, nnz, problems):
 
 def decode(path):
     problems = []
-    out = {'problems': problems, 'shape': None, 'nnz': None, 'csr': None, 'csc': None,
+    out = {'problems': problems, 'notes': [], 'shape': None, 'nnz': None, 'csr': None, 'csc': None,
            'ids': {}, 'md_entries': {}, 'attrs': {}}
     with h5py.File(path, 'r') as f:
         a = f.attrs
@@ -112,7 +113,9 @@ def decode(path):
             else:
                 out['attrs'][name] = _text(a[name])
         if 'type' in out['attrs'] and out['attrs']['type'] not in VOCABULARY + ['']:
-            problems.append('attribute type %r is not in the controlled vocabulary' % out['attrs']['type'])
+            # for information only: the library writes whatever type the table carries (it never validates it),
+            # so this reflects the table handed to the writer, not the writer (docs/C04.md, "Observation")
+            out['notes'].append('attribute type %r is not in the controlled vocabulary' % out['attrs']['type'])
         if 'creation-date' in out['attrs']:
             try:
                 datetime.datetime.fromisoformat(out['attrs']['creation-date'])
